@@ -4,6 +4,13 @@ import copy
 from . import spec as S
 
 
+def _ulp(x):
+    """The float next to x (a structural parameter that differs in the last bit is still a different parameter)."""
+    import math
+
+    return math.nextafter(x, math.inf)
+
+
 def _local(node):
     """Neighbours of a single node (children untouched): list of (label, newnode)."""
     t = node["t"]
@@ -19,6 +26,8 @@ def _local(node):
         mod("Bin.num", p=[num + 1, low, high])
         mod("Bin.low", p=[num, low - 1.0, high])
         mod("Bin.high", p=[num, low, high + 1.0])
+        mod("Bin.low", p=[num, _ulp(low), high])
+        mod("Bin.high", p=[num, low, _ulp(high)])
         for k in ("uf", "of", "nf"):
             if k not in node:
                 mod("Bin.%s-type" % k, **{k: {"t": "Sum", "q": "y"}})
@@ -26,17 +35,21 @@ def _local(node):
         bw, o = node["p"]
         mod("SparselyBin.binWidth", p=[bw * 2.0, o])
         mod("SparselyBin.origin", p=[bw, o + 0.25])
+        mod("SparselyBin.binWidth", p=[_ulp(bw), o])
+        mod("SparselyBin.origin", p=[bw, _ulp(o)])
         if "nf" not in node:
             mod("SparselyBin.nf-type", nf={"t": "Sum", "q": "y"})
     elif t == "CentrallyBin":
         c = list(node["p"])
         mod("CentrallyBin.center", p=c[:-1] + [c[-1] + 1.0])
+        mod("CentrallyBin.center", p=c[:-1] + [_ulp(c[-1])])
         mod("CentrallyBin.extra-center", p=c + [c[-1] + 2.0])
         if "nf" not in node:
             mod("CentrallyBin.nf-type", nf={"t": "Sum", "q": "y"})
     elif t in ("IrregularlyBin", "Stack"):
         e = list(node["p"])
         mod(t + ".threshold", p=e[:-1] + [e[-1] + 0.5])
+        mod(t + ".threshold", p=e[:-1] + [_ulp(e[-1])])
         mod(t + ".extra-trailing-threshold", p=e + [e[-1] + 1.0])
         mod(t + ".fewer-thresholds", p=e[:-1]) if len(e) > 1 else None
         if "nf" not in node:
